@@ -3,6 +3,7 @@ from ..facts import walk, strip, loc_str, strip_tmpl
 from .. import pathrules as pr
 from ..cfg import CFG
 from .. import consts, bls
+from .. import buildmodel as bm
 
 NS = 'embedded_pairing::bls12_381::'
 
@@ -325,11 +326,32 @@ def check_get_point(ctx, cfg, prog, f):
     ctx.ob('R-MUSTPASS', ok_all and n >= 1, 'getpoint|' + tag, loc_str(f),
            '%s: a checked path returns true without the non-residue test (legendre() == -1 => reject): an x with no matching y '
            'would be accepted' % f['qn'], cfg=cfg, sample=dict(config=cfg, function=f['qn'][:100], accepting_checked_paths=n))
-    # sign selection compares y with its negation
-    cmp = [c for c in pr.calls(f['body']) if c.get('name') == 'compare']
-    neg = [c for c in pr.calls(f['body']) if c.get('name') == 'negate']
-    ctx.ob('R-MUSTPASS', bool(cmp) and bool(neg), 'getpoint-sign|' + tag, loc_str(f),
-           '%s: the y/-y selection must compare y with its negation' % f['qn'], cfg=cfg)
+    # the root is selected by the predicate `y is the larger of (y, -y)`: truth table of the code's predicate against the definition
+    from .. import signpred
+    fld = 'Fq2' if ('Affine<' + NS + 'Fq2,' in f['qn']) else 'Fq'
+    expr = None
+    for x in walk(f['body']):
+        if x.get('k') == 'if':
+            c = strip(x['c'])
+            if c.get('k') == 'bin' and c.get('op') in ('!=', '=='):
+                sides = [strip(c['lhs']), strip(c['rhs'])]
+                names = [pr.norm_obj(pr.canon(s_)) for s_ in sides]
+                if 'P:greater' in names:
+                    expr = sides[1 - names.index('P:greater')]
+    if expr is None:
+        raise bm.AnalysisBroken('%s: the comparison of `greater` with the sign of y was not found' % f['qn'])
+    try:
+        got = signpred.truth_table(prog, f, expr, fld, lambda env, y: env.__setitem__('this', signpred.Point(y)),
+                                   prelude=[s_ for s_ in walk(f['body']) if isinstance(s_, dict) and s_.get('k') in ('decl', 'expr') and ('vars' in s_ or 'e' in s_)])
+    except signpred.Unsupported as e:
+        raise bm.AnalysisBroken('%s: the predicate that selects the root cannot be evaluated (%s): no verdict' % (f['qn'], e))
+    want = signpred.expected_table(fld)
+    bad = sorted(k for k in want if got.get(k) != want[k])
+    ctx.ob('R-MUSTPASS', not bad, 'getpoint-sign|' + tag, loc_str(f),
+           '%s: the predicate that selects between y and -y is not `y is the larger of the two` for %s (classes of %s: Z zero, S smaller than its '
+           'negation, L larger): got %s, the definition gives %s' % (f['qn'], bad[:3], '(c0, c1)' if fld == 'Fq2' else 'y',
+                                                                  [sorted(got[k]) for k in bad[:3]], [sorted(want[k]) for k in bad[:3]]), cfg=cfg,
+           sample=dict(config=cfg, function=f['qn'][:100], abstract_inputs=len(want)))
 
 
 def check_subgroup(ctx, cfg, prog, f):
@@ -469,6 +491,30 @@ def check_sign_agreement(ctx, cfg, prog):
         pe = enc_pred(e)
         pd = dec_pred(d[0]) if d else None
         ok = pe is not None and pe == pd and pe[0] != 'expr'
+        # the two sides may be written differently; what has to agree is the predicate: truth table of the encoder's condition against the
+        # definition `y is the larger of (y, -y)` (the decoder's table is checked in check_get_point)
+        from .. import signpred
+        cond = None
+        for x in walk(e['body']):
+            if x.get('k') == 'if':
+                sets = [y for y in walk(x['then']) if y.get('k') == 'assign' and any(z.get('k') == 'ref' and 'encoding_flags_greater' in (z.get('g') or '') for z in walk(y['rhs']))]
+                if sets:
+                    cond = x['c']
+        if cond is None:
+            raise bm.AnalysisBroken('%s: the statement that sets the sign flag was not found' % e['qn'])
+        gid = e['params'][0]['id']
+        try:
+            got = signpred.truth_table(prog, e, cond, fld, lambda env, y: env.__setitem__(gid, signpred.Point(y)),
+                                       prelude=[s_ for s_ in walk(e['body']) if isinstance(s_, dict) and s_.get('k') in ('decl', 'expr') and ('vars' in s_ or 'e' in s_)])
+        except signpred.Unsupported as ex:
+            got = None
+        if got is not None:
+            want = signpred.expected_table(fld)
+            badk = sorted(k for k in want if got.get(k) != want[k])
+            ok = not badk
+            pe = pe if ok else ('truth table differs from the definition at %s: got %s' % (badk[:3], [sorted(got[k]) for k in badk[:3]]))
+        # otherwise (the encoder's predicate is outside what the abstract evaluation understands, e.g. limb-level shortcuts) the older,
+        # stricter sibling rule decides: both sides must be written as the same predicate
         ctx.ob('R-PAIR', ok, 'sign|%s' % fld, loc_str(e),
                'the compressed %s encoder decides the sign flag with %s while the decoder (get_point_from_x) selects the root with %s: unless both are the '
                'same predicate on (y, -y) an encoding can decode to the negated point' % (fld, pe, pd), cfg=cfg,
